@@ -82,17 +82,32 @@ def tree_key(extra_paths=()):
 
 # ------------------------------------------------------------------------------------------ Go harness
 
-def build_harness(pkg, tags="verif"):
-    """go test -c of harness/<pkg> against /repo's current working tree."""
-    out = os.path.join(CACHE, "bin", pkg.replace("/", "_") + ".test")
+def repo_tag():
+    """Distinguishes work directories / binaries of runs against different repository trees (VERIF_REPO)."""
+    return "" if REPO == "/repo" else "_" + hashlib.sha256(REPO.encode()).hexdigest()[:8]
+
+
+def build_harness(pkg, tags="verif", module="harness"):
+    """go test -c of <module>/<pkg> against the current working tree of /repo (or $VERIF_REPO, a scratch
+    worktree used for self-tests: then an alternate go.mod with the replace directive pointed there is used)."""
+    moddir = os.path.join(VERIF, module)
+    out = os.path.join(CACHE, "bin", module + "_" + pkg.replace("/", "_") + repo_tag() + ".test")
     os.makedirs(os.path.dirname(out), exist_ok=True)
     t0 = time.time()
-    gosum = os.path.join(HARNESS, "go.sum")
-    try:
-        shutil.copyfile(os.path.join(REPO, "go.sum"), gosum)
-    except OSError:
-        pass
-    p = sh(["go", "test", "-c", "-tags", tags, "-o", out, "./" + pkg + "/"], cwd=HARNESS, env=go_env(), timeout=3600,
+    extra = []
+    if REPO == "/repo":
+        try:
+            shutil.copyfile(os.path.join(REPO, "go.sum"), os.path.join(moddir, "go.sum"))
+        except OSError:
+            pass
+    else:
+        alt = os.path.join(moddir, "go" + repo_tag() + ".mod")
+        txt = open(os.path.join(moddir, "go.mod")).read().replace("=> /repo", "=> " + REPO)
+        with open(alt, "w") as f:
+            f.write(txt)
+        shutil.copyfile(os.path.join(moddir, "go.sum"), alt[:-4] + ".sum")
+        extra = ["-modfile", alt]
+    p = sh(["go", "test", "-c", "-tags", tags] + extra + ["-o", out, "./" + pkg + "/"], cwd=moddir, env=go_env(), timeout=3600,
            check=False)
     if p.returncode != 0:
         raise Infra("harness build failed for %s:\n%s" % (pkg, p.stdout[-6000:]))
@@ -111,6 +126,7 @@ def run_driver(binary, test, env_extra, timeout=1800):
 # ------------------------------------------------------------------------------------------ TLC
 
 def _tlc(args, cwd, timeout, extra_env=None):
+    os.makedirs(os.path.join(CACHE, "tmp"), exist_ok=True)
     md = tempfile.mkdtemp(prefix="tlcmd_", dir=os.path.join(CACHE, "tmp"))
     env = dict(os.environ)
     if extra_env:
